@@ -46,10 +46,7 @@ def sources_from_json(js):
 
 def run_once(sources, opts, plan, tz="UTC", keep=False):
     scn = merge.scenario_for(sources, opts, tz)
-    res = core.execute(scn, plan, keep=keep)
-    if res.timed_out:
-        # machine load must not raise an alarm: one isolated re-run before a wall-clock timeout counts
-        res = core.execute(scn, plan, keep=keep, wall_cap=120.0)
+    res = core.execute(scn, plan, keep=keep)     # (an isolated re-run on wall-clock timeout happens inside execute)
     return scn, res
 
 
